@@ -10,9 +10,6 @@ def checkC03 (l : Line) : Verdict := Id.run do
   let cold := (l.outS "c").splitOn ";"
   let interp := (l.outS "n_o").splitOn ";"
   if warm.length != cold.length || warm.length != interp.length then return .bad "run counts differ between builds"
-  -- entries 32..39 are the trampolines located inside the switchable bank
-  let usesBankedSwitch := ((l.inS "hist").splitOn ",").any fun op =>
-    op.startsWith "g" && (parseNat (op.drop 1).toString) ≥ 32
   let mut seen : List (Nat × Nat) := []      -- (key, bytes_translated) of every block translated so far (warm cache)
   let mut k := 0
   for w in warm do
@@ -22,12 +19,13 @@ def checkC03 (l : Line) : Verdict := Id.run do
     let st (xs : List Nat) := xs.take 7
     if st nf != st wf || st nf != st cf then
       let what := if st wf != st cf then "warm cache differs from a cache emptied before every block" else "recompiler differs from the interpreter"
-      -- the recorded finding: the block that just ran is one of the trampolines located INSIDE the switchable bank
-      -- (0x4300 + j*0x40), it switched banks mid-block, and only what the rest of that block computed (A, F, C) differs
-      let ip0 := wf.getD 7 0
-      let isBankedTrampoline := usesBankedSwitch && ip0 ≥ 0x4300 && ip0 < 0x4500 && (ip0 - 0x4300) % 0x40 == 0
-      let onlyAF := (st nf).drop 2 == (st wf).drop 2 && st wf == st cf   -- A, F, B/C: what the tail of that block computes
-      let tag := if isBankedTrampoline && onlyAF then " [mid-block bank switch from code in the switchable bank]" else ""
+      -- the recorded finding: the block that just ran is located INSIDE the switchable bank and, as the interpreter ran
+      -- it, wrote to the cartridge's banking registers; the translated block went on in the old bank's translation
+      -- (warm and cold cache alike)
+      let ip0 := nf.getD 7 0
+      let inBanked := ip0 ≥ 0x4000 && ip0 < 0x8000 && wf.getD 7 0 == ip0 && wf.getD 8 0 == nf.getD 8 0
+      let switched := nf.getD 11 0 == 1      -- the interpreter's run of that block wrote to 0x2000..0x7fff
+      let tag := if inBanked && switched && st wf == st cf then " [mid-block bank switch from code in the switchable bank]" else ""
       return .specDiff s!"run {k}: {what}{tag}: interp={st nf} warm={st wf} cold={st cf}"
     -- cache model: key discipline
     let ip0 := wf.getD 7 0; let bank0 := wf.getD 8 0; let h := wf.getD 9 0; let bt := wf.getD 10 0
